@@ -115,6 +115,10 @@ func (s *Sess) CreatePDR(req *ie.IE) error {
 			if err1 != nil {
 				break
 			}
+			if _, dup := urrids[v]; dup {
+				// the same URR named twice is still one association
+				break
+			}
 			urrids[v] = struct{}{}
 			urrInfo, ok := s.URRIDs[v]
 			if ok {
@@ -167,6 +171,7 @@ func (s *Sess) UpdatePDR(req *ie.IE) ([]report.USAReport, error) {
 	}
 
 	var pdrid uint16
+	hasUrrids := false
 	newUrrids := make(map[uint32]struct{})
 	for _, i := range ies {
 		switch i.Type {
@@ -181,6 +186,7 @@ func (s *Sess) UpdatePDR(req *ie.IE) ([]report.USAReport, error) {
 			if err1 != nil {
 				break
 			}
+			hasUrrids = true
 			newUrrids[v] = struct{}{}
 		}
 	}
@@ -193,6 +199,20 @@ func (s *Sess) UpdatePDR(req *ie.IE) ([]report.USAReport, error) {
 	err = s.rnode.driver.UpdatePDR(s.LocalID, req)
 	if err != nil {
 		return nil, err
+	}
+
+	if !hasUrrids {
+		// TS 29.244 7.5.4.2: without URR ID IEs the URRs associated to the PDR are not changed
+		return nil, nil
+	}
+
+	// a URR newly associated by this update is referenced by one more PDR
+	for urrid := range newUrrids {
+		if _, ok = pdrInfo.RelatedURRIDs[urrid]; !ok {
+			if urrInfo, found := s.URRIDs[urrid]; found {
+				urrInfo.refPdrNum++
+			}
+		}
 	}
 
 	var usars []report.USAReport
@@ -344,7 +364,15 @@ func (s *Sess) CreateURR(req *ie.IE) error {
 			break
 		}
 	}
+	// PDRs created earlier may already name this URR
+	var refPdrNum uint16
+	for _, pdrInfo := range s.PDRIDs {
+		if _, ok := pdrInfo.RelatedURRIDs[id]; ok {
+			refPdrNum++
+		}
+	}
 	s.URRIDs[id] = &URRInfo{
+		refPdrNum: refPdrNum,
 		MeasureMethod: report.MeasureMethod{
 			DURAT: req.HasDURAT(),
 			VOLUM: req.HasVOLUM(),
